@@ -195,7 +195,7 @@ impl<K: ExpiredKey<E>, E: Expiration, V: Copy> KeyExpTree<K, E, V> {
 
         while index != EMPTY_REF {
             let entity = self.node(index).entity;
-            match entity.key.cmp(&key) {
+            match key.cmp(&entity.key) {
                 Ordering::Equal => return Some(entity.val),
                 Ordering::Less => index = self.expire_left(index, time),
                 Ordering::Greater => index = self.expire_right(index, time),
